@@ -198,3 +198,170 @@ pub async fn h3_request(peer: SocketAddr, sni: &str, alpn: &[Vec<u8>], headers: 
     flush(&socket, &mut conn).await;
     out
 }
+
+#[derive(Debug, Default, Clone)]
+pub struct H3Response {
+    pub status: Option<u16>,
+    pub headers: Vec<(String, Vec<u8>)>,
+    pub body: Vec<u8>,
+    /// the stream was finished or reset by the peer
+    pub ended: bool,
+    /// statuses of interim (1xx) responses seen before the final one
+    pub interim: Vec<u16>,
+    pub reset: bool,
+}
+
+#[derive(Debug, Clone)]
+pub struct H3Request {
+    pub headers: Vec<(Vec<u8>, Vec<u8>)>,
+    /// bytes sent on the request stream after the head (a tunnel's payload); the stream is left open
+    pub body: Vec<u8>,
+    /// finish the request stream with the head (plain requests)
+    pub fin: bool,
+    /// finish the request stream after `body`
+    pub fin_after_body: bool,
+}
+
+/// Several requests multiplexed on one QUIC connection; responses in request order.
+pub async fn h3_session(peer: SocketAddr, sni: &str, requests: &[H3Request], limit: Duration) -> (H3Outcome, Vec<H3Response>) {
+    let mut out = H3Outcome::default();
+    let mut resps: Vec<H3Response> = requests.iter().map(|_| H3Response::default()).collect();
+    let bind = if peer.is_ipv4() { "127.0.0.1:0" } else { "[::1]:0" };
+    let socket = match UdpSocket::bind(bind).await {
+        Ok(s) => s,
+        Err(e) => {
+            out.error = Some(format!("bind: {}", e));
+            return (out, resps);
+        }
+    };
+    let mut scid = [0u8; quiche::MAX_CONN_ID_LEN];
+    let _ = ring::rand::SecureRandom::fill(&ring::rand::SystemRandom::new(), &mut scid);
+    let mut config = quiche::Config::new(quiche::PROTOCOL_VERSION).unwrap();
+    config.verify_peer(false);
+    config.set_max_idle_timeout(5000);
+    config.set_max_recv_udp_payload_size(MAX_UDP_PAYLOAD);
+    config.set_max_send_udp_payload_size(MAX_UDP_PAYLOAD);
+    config.set_initial_max_data(10_000_000);
+    config.set_initial_max_stream_data_bidi_local(1_000_000);
+    config.set_initial_max_stream_data_bidi_remote(1_000_000);
+    config.set_initial_max_stream_data_uni(1_000_000);
+    config.set_initial_max_streams_bidi(100);
+    config.set_initial_max_streams_uni(100);
+    let _ = config.set_application_protos(&[b"h3"]);
+    let mut conn = match quiche::connect(Some(sni), &quiche::ConnectionId::from_ref(&scid), socket.local_addr().unwrap(), peer, &mut config) {
+        Ok(c) => c,
+        Err(e) => {
+            out.error = Some(format!("connect: {}", e));
+            return (out, resps);
+        }
+    };
+    out.hello_packets = flush(&socket, &mut conn).await;
+    let deadline = Instant::now() + limit;
+    while !conn.is_established() {
+        if conn.is_closed() || Instant::now() > deadline {
+            out.closed = true;
+            return (out, resps);
+        }
+        wait_io(&socket, &conn).await;
+        read_out(&socket, &mut conn);
+        conn.on_timeout();
+        flush(&socket, &mut conn).await;
+    }
+    out.established = true;
+    let mut h3_conn = match h3::Connection::with_transport(&mut conn, &h3::Config::new().unwrap()) {
+        Ok(c) => c,
+        Err(e) => {
+            out.error = Some(format!("h3: {}", e));
+            return (out, resps);
+        }
+    };
+    let mut ids: Vec<Option<u64>> = vec![];
+    for r in requests {
+        let hdrs: Vec<h3::Header> = r.headers.iter().map(|(n, v)| h3::Header::new(n, v)).collect();
+        match h3_conn.send_request(&mut conn, &hdrs, r.fin) {
+            Ok(id) => {
+                if !r.body.is_empty() || r.fin_after_body {
+                    let _ = h3_conn.send_body(&mut conn, id, &r.body, r.fin_after_body);
+                }
+                ids.push(Some(id));
+            }
+            Err(e) => {
+                out.error.get_or_insert(format!("send_request: {}", e));
+                ids.push(None);
+            }
+        }
+        flush(&socket, &mut conn).await;
+    }
+    let want_body: Vec<usize> = requests.iter().map(|r| r.body.len()).collect();
+    let mut buf = vec![0u8; 65535];
+    while Instant::now() < deadline {
+        if conn.is_closed() {
+            out.closed = true;
+            break;
+        }
+        read_out(&socket, &mut conn);
+        loop {
+            match h3_conn.poll(&mut conn) {
+                Ok((sid, h3::Event::Headers { list, .. })) => {
+                    if let Some(k) = ids.iter().position(|x| *x == Some(sid)) {
+                        let status: Option<u16> = list.iter().find(|h| h.name() == b":status").and_then(|h| std::str::from_utf8(h.value()).ok().and_then(|s| s.parse().ok()));
+                        // interim responses do not end the wait
+                        match status {
+                            Some(s) if (100..200).contains(&s) => resps[k].interim.push(s),
+                            _ => {
+                                resps[k].status = status;
+                                resps[k].headers = list.iter().map(|h| (String::from_utf8_lossy(h.name()).into_owned(), h.value().to_vec())).collect();
+                            }
+                        }
+                    }
+                }
+                Ok((sid, h3::Event::Data)) => {
+                    if let Some(k) = ids.iter().position(|x| *x == Some(sid)) {
+                        while let Ok(n) = h3_conn.recv_body(&mut conn, sid, &mut buf) {
+                            if n == 0 {
+                                break;
+                            }
+                            resps[k].body.extend_from_slice(&buf[..n]);
+                        }
+                    }
+                }
+                Ok((sid, h3::Event::Finished)) => {
+                    if let Some(k) = ids.iter().position(|x| *x == Some(sid)) {
+                        resps[k].ended = true;
+                    }
+                }
+                Ok((sid, h3::Event::Reset(_))) => {
+                    if let Some(k) = ids.iter().position(|x| *x == Some(sid)) {
+                        resps[k].ended = true;
+                        resps[k].reset = true;
+                    }
+                }
+                Ok(_) => {}
+                Err(h3::Error::Done) => break,
+                Err(_) => {
+                    out.closed = true;
+                    break;
+                }
+            }
+        }
+        let all = resps.iter().zip(&ids).zip(&want_body).zip(requests).all(|(((r, id), want), q)| {
+            if id.is_none() {
+                return true;
+            }
+            if q.fin || q.fin_after_body {
+                r.status.is_some() && r.ended
+            } else {
+                r.status.is_some() && (r.status != Some(200) || r.body.len() >= *want || r.ended)
+            }
+        });
+        if all || out.closed {
+            break;
+        }
+        conn.on_timeout();
+        flush(&socket, &mut conn).await;
+        wait_io(&socket, &conn).await;
+    }
+    let _ = conn.close(true, 0, b"");
+    flush(&socket, &mut conn).await;
+    (out, resps)
+}
